@@ -8,6 +8,7 @@ pub mod c08;
 pub mod c09;
 pub mod c10;
 pub mod c12;
+pub mod c13;
 pub mod c14;
 pub mod c15;
 pub mod c16;
@@ -32,6 +33,7 @@ pub fn run_property(ctx: &mut Ctx) -> bool {
         "C09" => c09::run(ctx),
         "C10" => c10::run(ctx),
         "C12" => c12::run(ctx),
+        "C13" => c13::run(ctx),
         "C14" => c14::run(ctx),
         "C15" => c15::run(ctx),
         "C16" => c16::run(ctx),
@@ -90,6 +92,8 @@ pub fn replay(body: &Value) -> i32 {
         "suspend" => replay_part(&c19::C19Part, body),
         "progress" => replay_part(&c20::C20Part, body),
         "limits" => replay_part(&c17::C17Part, body),
+        "fs-model" => replay_part(&c13::FsModelPart, body),
+        "fs-transaction" => replay_part(&c13::FsTxPart, body),
         "roundtrip" => replay_part(&c05::RtPart, body),
         "checksum" => replay_part(&c14::CkPart, body),
         "confinement" => replay_part(&c12::FsPart, body),
